@@ -315,10 +315,12 @@ func runConflict(r *report.Run, c *ConflictCase) *report.Failure {
 			r.Hit("shared-cache-same-deposits-reordered")
 		case "same-history":
 			r.Hit("shared-cache-sibling-behind-same-history")
+		case "sibling-bad-pop-of-keys-the-cache-knows":
+			r.Hit("shared-cache-sibling-bad-pop-of-keys-the-cache-knows")
 		default:
 			r.Hit("shared-cache-conflicting-deposit-histories")
 		}
-		r.NonTrivial(fmt.Sprintf("conflict|%d|%d|%d|%v|%v", c.NewM, c.NewS, c.MaxDep, c.SameKeys, c.Swapped))
+		r.NonTrivial(fmt.Sprintf("conflict|%d|%d|%d|%v|%v", c.NewM, c.NewS, c.MaxDep, c.SameKeys, c.Swapped || c.BadPopS))
 		r.Sample("conflicting-deposit-histories", func() any { return c })
 	}
 	return nil
@@ -349,7 +351,7 @@ func TestCheck(t *testing.T) {
 	if r.Replay != "" {
 		return
 	}
-	r.Mandatory("shared-cache-conflicting-deposit-histories", "shared-cache-sibling-behind-same-history", "shared-cache-same-deposits-reordered", "event:deposit-added-validator", "event:validator-added-mid-epoch", "event:upgrade", "event:sync-rotation", "event:active-set-changes-at-constant-size", "reload-continuation", "fork-sibling-advanced")
+	r.Mandatory("shared-cache-sibling-bad-pop-of-keys-the-cache-knows", "shared-cache-conflicting-deposit-histories", "shared-cache-sibling-behind-same-history", "shared-cache-same-deposits-reordered", "event:deposit-added-validator", "event:validator-added-mid-epoch", "event:upgrade", "event:sync-rotation", "event:active-set-changes-at-constant-size", "reload-continuation", "fork-sibling-advanced")
 	n := 2
 	if r.Thorough() {
 		n = 10
